@@ -72,6 +72,21 @@ def seed_hash(seed):
     return murmur3_x64_128(struct.pack("<Q", seed & M64), 0)[0] & 0xffff
 
 
+_COLL = {}
+
+
+def seed_collider(seed):
+    """a different seed with the same 16-bit seed hash (the serialized form cannot tell the two apart; merge must).
+    Table over seeds 0..2^18 built once; ~98% of hash values are covered."""
+    if not _COLL:
+        for s2 in range(1 << 18):
+            _COLL.setdefault(seed_hash(s2), []).append(s2)
+    for s2 in _COLL.get(seed_hash(seed), []):
+        if s2 != seed & M64:
+            return s2
+    return None
+
+
 def item_key(ty, lit):
     """canonical bytes of an item = what the code hashes; None = empty string (ignored by the code)."""
     if ty == "u64":
@@ -276,7 +291,8 @@ def hist_streams(rng, tier):
     cfg = rand_cfg(rng, tier)
     ids = [h.new(kind, *cfg)]
     for _ in range(rng.choice([0, 0, 1, 2])):
-        c2 = cfg if rng.random() < 0.6 else rng.choice([(cfg[0], cfg[1], cfg[2] ^ 1), (cfg[0], rng.choice(NB_CHOICES), cfg[2]), (rng.choice(NH_CHOICES[:5]), cfg[1], cfg[2])])
+        c2 = cfg if rng.random() < 0.6 else rng.choice([(cfg[0], cfg[1], cfg[2] ^ 1), (cfg[0], rng.choice(NB_CHOICES), cfg[2]), (rng.choice(NH_CHOICES[:5]), cfg[1], cfg[2]),
+                                                        (cfg[0], cfg[1], seed_collider(cfg[2]) or cfg[2] ^ 2)])     # same 16-bit seed hash, different seed
         ids.append(h.new(kind, *c2))
     nu = rng.choice([1, 3, 10, 40])
     items = rand_items(rng, nu)
@@ -393,6 +409,20 @@ def hist_boundary(rng, tier):
             h.q(i, it[0]); h.q(i, it[-1])
             h.raw("merge %d %d" % (i, i))
             h.raw("dump %d" % i)
+    if rng.random() < 0.6:               # refused merges: one field of the configuration differs, incl. a seed with the same 16-bit seed hash
+        nh, nb, seed = rng.choice([1, 2, 3, 5]), rng.choice([3, 4, 7, 64]), rng.choice([9001, 9001, 0, 1, rng.randrange(2**64), rng.randrange(2**32)])
+        a = h.new(kind, nh, nb, seed)
+        others = [(nh, nb, seed_collider(seed) or seed ^ 2), (nh, nb, seed ^ 1), (nh + 1, nb, seed), (nh, nb + 1, seed)]
+        rng.shuffle(others)
+        it = rand_items(rng, 3)
+        h.upd(a, it[0], 1)
+        for c in others[:rng.randrange(1, 4)]:
+            b = h.new(kind, *c)
+            h.upd(b, it[-1], 2)
+            h.merge(a, b) if rng.random() < 0.5 else h.merge(b, a)
+            h.raw("dump %d" % a); h.raw("dump %d" % b)
+        for x in it:
+            h.q(a, x)
     for _ in range(rng.randrange(1, 5)):
         if rng.random() < 0.5:
             re = rng.choice([1.0, 0.5, 0.1, 0.05, 0.01, 1e-3, 1e-6, 2.718281828, 3.0, 100.0, -0.5, -1e-300, 1e-9, rng.random()])
